@@ -47,7 +47,7 @@ def check(chk):
     cfg = w.cfg()
     writes = [n for n, c in cfg.calls_named("write_to_port")]
     gets = [n for n in cfg.nodes_where(lambda n: n.kind == "stmt" and n.has_await() and "send_queue.get()" in n.text(200))]
-    chk.require(writes and gets, "C14: writer loop anchors vanished")
+    chk.need(writes and gets, "PAIR-14", "the FAST writer takes messages from the queue and writes them to the port", w)
     awaits = [n for n in cfg.nodes_where(lambda n: n.kind == "stmt" and n.has_await() and ".wait()" in n.text(200))]
     chk.ob("PAIR-14", "the writer awaits something after writing a confirmed command", bool(awaits), w.where(), construct=w.ident,
            text="writer await present")
